@@ -654,7 +654,6 @@ func lineReachesDispatcher(c *Check) int {
 	return n
 }
 
-
 // nodeNameRule: the node name given to the sshd processor is this node's
 // name: the value handed to NewSshdProcessor comes from the node-name
 // function, which returns an environment value only when it is non-empty and
@@ -773,7 +772,6 @@ func nodeNameRule(c *Check) {
 	c.Floor("node-name sources examined", 1, n)
 }
 
-
 // wholeLineMatchAnchored: a pattern matched against the whole line finds its
 // leftmost match; unless the pattern is anchored at the start (or begins
 // with the literal keyword the row was dispatched on, which pins the match
@@ -834,7 +832,6 @@ func wholeLineMatchAnchored(c *Check, d *Dispatch, rx map[string]*RegexVar) {
 	}
 	c.Floor("patterns matched against the whole line in entry functions", 15, n)
 }
-
 
 // reachableFeasible: target is reachable from the entry of fn without
 // executing a barrier instruction and without taking an edge that dead
